@@ -1,5 +1,705 @@
-(* C11 — proofs *)
-From Coq Require Import List NArith Bool Lia.
+(* C11 — proofs about the step model (Model.v).  Everything is phrased through `lookup`, so that the order of
+   entries in a directory / archive / dict is irrelevant.                                                       *)
+From Coq Require Import List NArith Bool Lia Arith.
 Require Import QV.C11.Model.
 Import ListNotations.
 Open Scope N_scope.
+
+(* ------------------------------------------------------------------------------------------------------------ *)
+(* association lists                                                                                              *)
+
+Lemma lookup_aset {A} (i j : id) (v : A) l :
+  lookup j (aset i v l) = if i =? j then Some v else lookup j l.
+Proof.
+  induction l as [|[k w] r IH]; cbn.
+  - destruct (i =? j); reflexivity.
+  - destruct (k =? i) eqn:E; cbn.
+    + apply N.eqb_eq in E; subst k. destruct (i =? j); reflexivity.
+    + rewrite IH. destruct (k =? j) eqn:E2; [|reflexivity].
+      apply N.eqb_eq in E2; subst k. rewrite N.eqb_sym, E. reflexivity.
+Qed.
+
+Lemma lookup_adel {A} (i j : id) (l : list (id * A)) :
+  lookup j (adel i l) = if i =? j then None else lookup j l.
+Proof.
+  induction l as [|[k w] r IH]; cbn.
+  - destruct (i =? j); reflexivity.
+  - destruct (k =? i) eqn:E; cbn.
+    + apply N.eqb_eq in E; subst k. rewrite IH. destruct (i =? j); reflexivity.
+    + rewrite IH. destruct (k =? j) eqn:E2; [|reflexivity].
+      apply N.eqb_eq in E2; subst k. rewrite N.eqb_sym, E. reflexivity.
+Qed.
+
+Lemma lookup_app {A} (j : id) (a b : list (id * A)) :
+  lookup j (a ++ b) = match lookup j a with Some v => Some v | None => lookup j b end.
+Proof.
+  induction a as [|[k w] r IH]; cbn; [reflexivity|]. destruct (k =? j); auto.
+Qed.
+
+Lemma memb_In i l : memb i l = true <-> In i l.
+Proof.
+  unfold memb. rewrite existsb_exists. split.
+  - intros [x [H E]]. apply N.eqb_eq in E. subst; auto.
+  - intros H. exists i. split; auto. apply N.eqb_refl.
+Qed.
+
+Lemma lookup_None_keys {A} i (l : list (id * A)) : lookup i l = None <-> ~ In i (keys l).
+Proof.
+  induction l as [|[k w] r IH]; cbn; [tauto|].
+  destruct (k =? i) eqn:E.
+  - apply N.eqb_eq in E. subst. split; [discriminate|]. intros H; exfalso; apply H; auto.
+  - apply N.eqb_neq in E. rewrite IH. tauto.
+Qed.
+
+Lemma has_lookup {A} i (l : list (id * A)) : has i l = true <-> lookup i l <> None.
+Proof.
+  unfold has. rewrite memb_In. destruct (lookup i l) eqn:E.
+  - split; [discriminate|]. intros _.
+    destruct (in_dec N.eq_dec i (keys l)) as [H|H]; auto.
+    apply lookup_None_keys in H. congruence.
+  - apply lookup_None_keys in E. split; [tauto|congruence].
+Qed.
+
+Lemma lookup_In {A} i (v : A) l : lookup i l = Some v -> In (i, v) l.
+Proof.
+  induction l as [|[k w] r IH]; cbn; [discriminate|].
+  destruct (k =? i) eqn:E.
+  - apply N.eqb_eq in E. intros [= ->]. subst; auto.
+  - auto.
+Qed.
+
+Lemma aset_notin {A} i (v : A) l : ~ In i (keys l) -> aset i v l = l ++ [(i, v)].
+Proof.
+  induction l as [|[k w] r IH]; cbn; intros H; [reflexivity|].
+  destruct (k =? i) eqn:E.
+  - apply N.eqb_eq in E. exfalso; apply H; auto.
+  - f_equal. apply IH. tauto.
+Qed.
+
+Lemma keys_aset_in {A} i (v : A) l : In i (keys l) -> keys (aset i v l) = keys l.
+Proof.
+  induction l as [|[k w] r IH]; cbn; intros H; [tauto|].
+  destruct (k =? i) eqn:E; cbn.
+  - apply N.eqb_eq in E. subst; reflexivity.
+  - f_equal. apply IH. apply N.eqb_neq in E. destruct H as [H|H]; [cbn in H; congruence|auto].
+Qed.
+
+Lemma keys_aset_incl {A} i (v : A) l : incl (keys l) (keys (aset i v l)) /\ In i (keys (aset i v l)).
+Proof.
+  destruct (in_dec N.eq_dec i (keys l)) as [H|H].
+  - rewrite keys_aset_in by auto. split; auto. apply incl_refl.
+  - rewrite aset_notin by auto. unfold keys. rewrite map_app. cbn. split.
+    + apply incl_appl, incl_refl.
+    + apply in_or_app; right; cbn; auto.
+Qed.
+
+Lemma NoDup_snoc {A} (l : list A) x : NoDup l -> ~ In x l -> NoDup (l ++ [x]).
+Proof.
+  induction l as [|a r IH]; cbn; intros H Hx.
+  - constructor; auto.
+  - inversion H; subst. constructor.
+    + intros Hin. apply in_app_or in Hin. destruct Hin as [Hin|[Hin|[]]]; [auto|]. subst. apply Hx; auto.
+    + apply IH; auto.
+Qed.
+
+Lemma NoDup_keys_aset {A} i (v : A) l : NoDup (keys l) -> NoDup (keys (aset i v l)).
+Proof.
+  intros H. destruct (in_dec N.eq_dec i (keys l)) as [Hi|Hi].
+  - rewrite keys_aset_in; auto.
+  - rewrite aset_notin by auto. unfold keys. rewrite map_app. cbn.
+    apply NoDup_snoc; auto.
+Qed.
+
+(* ------------------------------------------------------------------------------------------------------------ *)
+(* closedness                                                                                                     *)
+Require Import QV.C11.Spec.
+
+Lemma equiv_refl s : equiv s s. Proof. intro; reflexivity. Qed.
+Lemma equiv_sym a b : equiv a b -> equiv b a. Proof. intros H j; symmetry; apply H. Qed.
+Lemma equiv_trans a b c : equiv a b -> equiv b c -> equiv a c.
+Proof. intros H1 H2 j. rewrite H1. apply H2. Qed.
+
+Lemma closed_equiv a b : equiv a b -> closed a -> closed b.
+Proof.
+  intros E H i x Hi. rewrite <- E in Hi. destruct (H i x Hi) as (p & refs & -> & Hr).
+  exists p, refs. split; auto. intros r Hin. rewrite <- E. auto.
+Qed.
+
+Lemma closed_aset s i p refs :
+  closed s -> (forall r, In r refs -> r = i \/ lookup r s <> None) -> closed (aset i (Full p refs) s).
+Proof.
+  intros H Hr j x Hj. rewrite lookup_aset in Hj. destruct (i =? j) eqn:E.
+  - injection Hj as <-. exists p, refs. split; auto. intros r Hin. rewrite lookup_aset.
+    destruct (i =? r) eqn:E2; [discriminate|]. destruct (Hr r Hin) as [->|]; auto.
+    rewrite N.eqb_refl in E2; discriminate.
+  - destruct (H j x Hj) as (q & rs & -> & Hq). exists q, rs. split; auto. intros r Hin.
+    rewrite lookup_aset. destruct (i =? r); [discriminate|auto].
+Qed.
+
+Lemma closed_adel s i :
+  closed s -> (forall j p refs, lookup j s = Some (Full p refs) -> ~ In i refs) -> closed (adel i s).
+Proof.
+  intros H Hn j x Hj. rewrite lookup_adel in Hj. destruct (i =? j) eqn:E; [discriminate|].
+  destruct (H j x Hj) as (q & rs & -> & Hq). exists q, rs. split; auto. intros r Hin.
+  rewrite lookup_adel. destruct (i =? r) eqn:E2; auto.
+  apply N.eqb_eq in E2; subst r. exfalso. eapply Hn; eauto.
+Qed.
+
+Lemma apply_tx_equiv l : forall a b, equiv a b -> equiv (apply_tx l a) (apply_tx l b).
+Proof.
+  induction l as [|[i x] r IH]; cbn; intros a b E; auto.
+  apply IH. intro j. rewrite !lookup_aset. destruct (i =? j); auto.
+Qed.
+
+Lemma apply_tx_notin l : forall s i, ~ In i (keys l) -> lookup i (apply_tx l s) = lookup i s.
+Proof.
+  induction l as [|[k x] r IH]; cbn; intros s i H; auto.
+  rewrite IH by tauto. rewrite lookup_aset. destruct (k =? i) eqn:E; auto.
+  apply N.eqb_eq in E. exfalso; apply H; auto.
+Qed.
+
+(* ------------------------------------------------------------------------------------------------------------ *)
+(* the backends replace atomically                                                                                *)
+
+Lemma run_app a b d : run (a ++ b) d = run b (run a d).
+Proof. unfold run. apply fold_left_app. Qed.
+
+Ltac eqv i s :=
+  let j := fresh "j" in
+  intro j; repeat (rewrite ?lookup_app, ?lookup_adel, ?lookup_aset); cbn;
+  destruct (i =? j) eqn:?; cbn; try reflexivity; destruct (lookup j s); reflexivity.
+
+Lemma put_atomic v b d s i x k :
+  safe v b = true -> main d = Some s ->
+  exists s', main (run (firstn k (put_steps v b d i x)) d) = Some s'
+             /\ (equiv s' s \/ equiv s' (aset i x s))
+             /\ ((length (put_steps v b d i x) <= k)%nat -> equiv s' (aset i x s)).
+Proof.
+  intros Hs Hm. destruct d as [m tf tz]; cbn in Hm; subst m.
+  destruct b; cbn in Hs; unfold put_steps; try rewrite Hs.
+  - destruct k as [|k]; cbn; rewrite ?firstn_nil; cbn; eexists; (split; [reflexivity|]); split.
+    + left; apply equiv_refl. + intros; lia. + right; apply equiv_refl. + intros; apply equiv_refl.
+  - destruct k as [|[|[|k]]]; cbn; rewrite ?firstn_nil; cbn; eexists; (split; [reflexivity|]); split;
+      try (left; apply equiv_refl); try (intros; lia); try (right; apply equiv_refl); try (intros; apply equiv_refl).
+  - unfold view; cbn [main]. destruct (has i s).
+    + destruct k as [|[|[|[|k]]]]; cbn; rewrite ?firstn_nil; cbn; eexists; (split; [reflexivity|]); split;
+        try (left; apply equiv_refl); try (intros; lia); try (right; eqv i s); try (intros; eqv i s).
+    + destruct k as [|k]; cbn; rewrite ?firstn_nil; cbn; eexists; (split; [reflexivity|]); split;
+        try (left; apply equiv_refl); try (intros; lia); try (right; eqv i s); try (intros; eqv i s).
+Qed.
+
+Lemma del_atomic v b d s i k :
+  safe v b = true -> main d = Some s ->
+  exists s', main (run (firstn k (del_steps v b d i)) d) = Some s'
+             /\ (equiv s' s \/ equiv s' (adel i s))
+             /\ ((length (del_steps v b d i) <= k)%nat -> equiv s' (adel i s)).
+Proof.
+  intros Hs Hm. destruct d as [m tf tz]; cbn in Hm; subst m.
+  destruct b; cbn in Hs; unfold del_steps; try rewrite Hs.
+  - destruct k as [|k]; cbn; rewrite ?firstn_nil; cbn; eexists; (split; [reflexivity|]); split;
+      try (left; apply equiv_refl); try (intros; lia); try (right; apply equiv_refl); try (intros; apply equiv_refl).
+  - destruct k as [|k]; cbn; rewrite ?firstn_nil; cbn; eexists; (split; [reflexivity|]); split;
+      try (left; apply equiv_refl); try (intros; lia); try (right; apply equiv_refl); try (intros; apply equiv_refl).
+  - unfold view; cbn [main].
+    destruct k as [|[|[|k]]]; cbn; rewrite ?firstn_nil; cbn; eexists; (split; [reflexivity|]); split;
+      try (left; apply equiv_refl); try (intros; lia); try (right; apply equiv_refl); try (intros; apply equiv_refl).
+Qed.
+
+(* ------------------------------------------------------------------------------------------------------------ *)
+(* a crash inside the write loop leaves the effect of a prefix of the transaction buffer                          *)
+
+Lemma tx_crash v b : safe v b = true -> forall tx d s k, main d = Some s ->
+  exists j s', main (run (firstn k (tx_steps v b d tx)) d) = Some s'
+               /\ equiv s' (apply_tx (firstn j (proj tx)) s)
+               /\ ((length (tx_steps v b d tx) <= k)%nat -> equiv s' (apply_tx (proj tx) s)).
+Proof.
+  intros Hs. induction tx as [|[i [tg x]] r IH]; intros d s k Hm.
+  - cbn. rewrite firstn_nil. cbn. exists 0%nat, s. repeat split; auto using equiv_refl.
+  - cbn [tx_steps]. set (st := put_steps v b d i x).
+    rewrite firstn_app, run_app.
+    destruct (put_atomic v b d s i x k Hs Hm) as (s1 & Hm1 & Hor & Hfull). fold st in Hm1, Hfull.
+    destruct (le_lt_dec (length st) k) as [Hle|Hlt].
+    + specialize (Hfull Hle). pose proof (firstn_all2 st Hle) as Hall. rewrite Hall in Hm1 |- *.
+      destruct (IH (run st d) s1 (k - length st)%nat Hm1) as (j & s' & Hm' & He & Hc).
+      exists (S j), s'. split; [exact Hm'|]. split.
+      * cbn. eapply equiv_trans; [exact He|]. apply apply_tx_equiv; auto.
+      * intros Hlen. cbn. eapply equiv_trans; [apply Hc|apply apply_tx_equiv; auto].
+        rewrite app_length in Hlen. lia.
+    + replace (k - length st)%nat with 0%nat by lia. cbn [firstn run fold_left].
+      destruct Hor as [Ho|Hn].
+      * exists 0%nat, s1. split; [exact Hm1|]. split; [exact Ho|].
+        intros Hlen. rewrite app_length in Hlen. lia.
+      * exists 1%nat, s1. split; [exact Hm1|]. split; [cbn; exact Hn|].
+        intros Hlen. rewrite app_length in Hlen. lia.
+Qed.
+
+(* children before parents: every document only refers to identifiers that are in the backend already or were
+   written earlier in the same transaction *)
+
+Lemma ordered_cons avail i x r :
+  ordered avail ((i, x) :: r) ->
+  (exists p refs, x = Full p refs /\ forall r0, In r0 refs -> In r0 avail) /\ ordered (i :: avail) r.
+Proof.
+  intros H. split.
+  - destruct (H [] i x r eq_refl) as (p & refs & -> & Hr). exists p, refs. split; auto.
+    intros r0 Hin. destruct (Hr r0 Hin) as [|[]]; auto.
+  - intros l1 j y l2 E. destruct (H ((i, x) :: l1) j y l2) as (p & refs & -> & Hr); [cbn; congruence|].
+    exists p, refs. split; auto. intros r0 Hin. destruct (Hr r0 Hin) as [Ha|Hk]; cbn; auto.
+    cbn in Hk. destruct Hk; auto.
+Qed.
+
+Lemma prefix_closed : forall tx avail s j,
+  closed s -> (forall a, In a avail -> lookup a s <> None) -> ordered avail tx ->
+  closed (apply_tx (firstn j tx) s).
+Proof.
+  induction tx as [|[i x] r IH]; intros avail s j Hc Ha Ho.
+  - rewrite firstn_nil. exact Hc.
+  - destruct j as [|j]; [exact Hc|]. cbn.
+    apply ordered_cons in Ho. destruct Ho as [(p & refs & -> & Hr) Ho].
+    apply (IH (i :: avail)); auto.
+    + apply closed_aset; auto.
+    + intros a [<-|Hin]; rewrite lookup_aset.
+      * rewrite N.eqb_refl; discriminate.
+      * destruct (i =? a); [discriminate|auto].
+Qed.
+
+Lemma prefix_old_or_new : forall tx s j i0,
+  NoDup (keys tx) ->
+  lookup i0 (apply_tx (firstn j tx) s) = lookup i0 s \/
+  lookup i0 (apply_tx (firstn j tx) s) = lookup i0 (apply_tx tx s).
+Proof.
+  induction tx as [|[i x] r IH]; intros s j i0 Hnd.
+  - rewrite firstn_nil. auto.
+  - destruct j as [|j]; [auto|]. cbn. inversion Hnd; subst.
+    destruct (IH (aset i x s) j i0 H2) as [H|H]; [|auto].
+    rewrite H, lookup_aset. destruct (i =? i0) eqn:E; [|auto].
+    apply N.eqb_eq in E; subst i0. right.
+    rewrite apply_tx_notin by auto. rewrite lookup_aset, N.eqb_refl. reflexivity.
+Qed.
+
+(* ------------------------------------------------------------------------------------------------------------ *)
+(* the transaction buffer built by the encoder is duplicate-free and ordered children-before-parents              *)
+
+Fixpoint tmpl_ind' (P : tmpl -> Prop) (HB : P Bad)
+  (HN : forall i tg p kids, Forall P kids -> P (Node i tg p kids)) (n : tmpl) {struct n} : P n :=
+  match n with
+  | Bad => HB
+  | Node i tg p kids =>
+      HN i tg p kids ((fix go (l : list tmpl) : Forall P l :=
+                         match l with
+                         | [] => Forall_nil P
+                         | k :: r => Forall_cons k (tmpl_ind' P HB HN k) (go r)
+                         end) kids)
+  end.
+
+Lemma keys_proj tx : keys (proj tx) = keys tx.
+Proof. unfold keys, proj. rewrite map_map. reflexivity. Qed.
+
+Lemma snoc_split {A} (l l1 l2 : list A) e f :
+  l ++ [e] = l1 ++ f :: l2 ->
+  (l2 = [] /\ l = l1 /\ e = f) \/ (exists l2', l2 = l2' ++ [e] /\ l = l1 ++ f :: l2').
+Proof.
+  intros E. destruct l2 as [|a l2] using rev_ind.
+  - left. apply app_inj_tail in E. tauto.
+  - right. clear IHl2. rewrite app_comm_cons, app_assoc in E. apply app_inj_tail in E.
+    destruct E as [E1 E2]. subst. eauto.
+Qed.
+
+Lemma ordered_snoc av l i p refs :
+  ordered av l -> (forall r, In r refs -> In r av \/ In r (keys l)) -> ordered av (l ++ [(i, Full p refs)]).
+Proof.
+  intros Ho Hr l1 j y l2 E. apply snoc_split in E. destruct E as [(-> & -> & E)|(l2' & -> & ->)].
+  - injection E as <- <-. exists p, refs. auto.
+  - eapply Ho. reflexivity.
+Qed.
+
+Lemma proj_aset_same i tg tg0 x tx :
+  lookup i tx = Some (tg0, x) -> proj (aset i (tg, x) tx) = proj tx.
+Proof.
+  induction tx as [|[k [t y]] r IH]; cbn; [discriminate|].
+  destruct (k =? i) eqn:E.
+  - intros [= -> ->]. cbn. apply N.eqb_eq in E. subst. reflexivity.
+  - intros H. cbn. f_equal. auto.
+Qed.
+
+Lemma in_aset {A} i (v : A) l e : In e (aset i v l) -> e = (i, v) \/ In e l.
+Proof.
+  induction l as [|[k w] r IH]; cbn.
+  - intros [<-|[]]; auto.
+  - destruct (k =? i); cbn; intros [<-|H]; auto. destruct (IH H); auto.
+Qed.
+
+Lemma walk_cons rec ks c k r tx :
+  walk_kids rec ks c (k :: r) tx =
+  match k with
+  | Bad => Err EUnser
+  | Node ci ctg _ _ =>
+      if negb (in_storage ks c ci) then
+        match rec k tx with Ok tx' => walk_kids rec ks c r tx' | Err e => Err e end
+      else match lookup ci c with
+           | Some t => if t =? ctg then walk_kids rec ks c r tx else Err EClash
+           | None => Err EClash
+           end
+  end.
+Proof. reflexivity. Qed.
+
+Lemma collect_node ks c i tg p kids tx :
+  collect ks c (Node i tg p kids) tx =
+  match walk_kids (collect ks c) ks c kids tx with
+  | Ok tx' => Ok (aset i (tg, doc_of (Node i tg p kids)) tx')
+  | Err e => Err e
+  end.
+Proof. reflexivity. Qed.
+
+Section Collect.
+  Variables (ks : list id) (c : cache) (NP : list tmpl).
+  Hypothesis Hcache : forall i, has i c = true -> In i ks.
+  Hypothesis Hcons : forall a b, In a NP -> In b NP -> nid_of a = nid_of b -> doc_of a = doc_of b.
+
+  Definition Inv (tx : txbuf) : Prop :=
+    NoDup (keys tx) /\ ordered ks (proj tx) /\
+    (forall i tg x, In (i, (tg, x)) tx -> exists n, In n NP /\ nid_of n = i /\ doc_of n = x).
+
+  Definition Pn (n : tmpl) : Prop :=
+    forall tx tx', incl (nodes n) NP -> Inv tx -> collect ks c n tx = Ok tx' ->
+      Inv tx' /\ incl (keys tx) (keys tx') /\ In (nid_of n) (keys tx').
+
+  Lemma walk_inv : forall l, Forall Pn l -> forall tx tx',
+    (forall k, In k l -> incl (nodes k) NP) -> Inv tx ->
+    walk_kids (collect ks c) ks c l tx = Ok tx' ->
+    Inv tx' /\ incl (keys tx) (keys tx') /\
+    (forall ci ctg cp ck, In (Node ci ctg cp ck) l -> In ci ks \/ In ci (keys tx')).
+  Proof.
+    induction 1 as [|k r Hk Hr IH]; intros tx tx' Hin Hinv Hw.
+    - cbn in Hw. injection Hw as <-. split; auto. split; [apply incl_refl|]. intros ? ? ? ? [].
+    - rewrite walk_cons in Hw. destruct k as [ci ctg cp ck|]; [|discriminate].
+      destruct (negb (in_storage ks c ci)) eqn:Est.
+      + destruct (collect ks c (Node ci ctg cp ck) tx) as [tx1|] eqn:Ec; [|discriminate].
+        destruct (Hk tx tx1) as (I1 & S1 & K1); auto. { apply Hin; cbn; auto. }
+        destruct (IH tx1 tx') as (I2 & S2 & K2); auto. { intros; apply Hin; cbn; auto. }
+        split; auto. split. { eapply incl_tran; eauto. }
+        intros ci' ctg' cp' ck' [E|Hin']; [|eauto].
+        injection E as <- <- <- <-. right. apply S2. exact K1.
+      + assert (Hks : In ci ks).
+        { apply negb_false_iff in Est. unfold in_storage in Est. apply orb_true_iff in Est.
+          destruct Est as [H|H]; [auto|apply memb_In; auto]. }
+        assert (Hw' : walk_kids (collect ks c) ks c r tx = Ok tx').
+        { destruct (lookup ci c); [|discriminate]. destruct (n =? ctg); [auto|discriminate]. }
+        destruct (IH tx tx') as (I2 & S2 & K2); auto. { intros; apply Hin; cbn; auto. }
+        split; auto. split; auto.
+        intros ci' ctg' cp' ck' [E|Hin']; [|eauto].
+        injection E as <- <- <- <-. left; auto.
+  Qed.
+
+  Lemma collect_inv : forall n, Pn n.
+  Proof.
+    induction n as [|i tg p kids HF] using tmpl_ind'; intros tx tx' Hin Hinv Hcol.
+    - discriminate.
+    - rewrite collect_node in Hcol.
+      destruct (walk_kids (collect ks c) ks c kids tx) as [tx1|] eqn:Ew; [|discriminate].
+      injection Hcol as <-.
+      destruct (walk_inv kids HF tx tx1) as ((ND & OR & EN) & S1 & K1); auto.
+      { intros k Hk m Hm. apply Hin. cbn. right. apply in_flat_map. eauto. }
+      set (n := Node i tg p kids).
+      assert (HnNP : In n NP) by (apply Hin; cbn; auto).
+      destruct (keys_aset_incl i (tg, doc_of n) tx1) as [S2 K2].
+      split; [|split; [eapply incl_tran; eauto|exact K2]].
+      split; [apply NoDup_keys_aset; auto|]. split.
+      + destruct (in_dec N.eq_dec i (keys tx1)) as [Hi|Hi].
+        * destruct (lookup i tx1) as [[tg0 x0]|] eqn:El.
+          2:{ apply lookup_None_keys in El. contradiction. }
+          destruct (EN i tg0 x0 (lookup_In _ _ _ El)) as (n' & Hn' & Hid & Hdoc).
+          assert (H : x0 = doc_of n). { rewrite <- Hdoc. symmetry. apply Hcons; auto. }
+          rewrite H in El. rewrite (proj_aset_same _ _ _ _ _ El). exact OR.
+        * rewrite aset_notin by auto. unfold proj. rewrite map_app. cbn [map fst snd].
+          apply ordered_snoc; auto.
+          intros r Hr. apply in_flat_map in Hr. destruct Hr as (k & Hk & Hrk).
+          destruct k as [ci ctg cp ck|]; [|destruct Hrk].
+          destruct Hrk as [<-|[]]. rewrite keys_proj. eauto.
+      + intros j t y Hj. apply in_aset in Hj. destruct Hj as [E|Hj]; [|eauto].
+        injection E as -> -> ->. exists n. auto.
+  Qed.
+End Collect.
+
+(* ------------------------------------------------------------------------------------------------------------ *)
+(* assembling the crash-safety theorem                                                                            *)
+
+Lemma list_eqb_combine : forall r t : list id,
+  length r = length t -> forallb (fun xy => fst xy =? snd xy) (combine r t) = true -> r = t.
+Proof.
+  induction r as [|a r IH]; destruct t as [|b t]; cbn; intros HL H; try discriminate; auto.
+  apply andb_true_iff in H. destruct H as [H1 H2]. apply N.eqb_eq in H1. subst. f_equal. apply IH; auto.
+Qed.
+
+Lemma doc_eqb_eq a b : doc_eqb a b = true -> a = b.
+Proof.
+  destruct a as [p r|], b as [q t|]; cbn; intros H; try discriminate; auto.
+  apply andb_true_iff in H. destruct H as [H H3]. apply andb_true_iff in H. destruct H as [H1 H2].
+  apply N.eqb_eq in H1. apply Nat.eqb_eq in H2. subst. f_equal. apply list_eqb_combine; auto.
+Qed.
+
+Lemma consistentb_spec n : consistentb n = true ->
+  forall a b, In a (nodes n) -> In b (nodes n) -> nid_of a = nid_of b -> doc_of a = doc_of b.
+Proof.
+  unfold consistentb. intros H a b Ha Hb E. rewrite forallb_forall in H. specialize (H a Ha).
+  rewrite forallb_forall in H. specialize (H b Hb). apply orb_true_iff in H. destruct H as [H|H].
+  - apply negb_true_iff in H. apply N.eqb_neq in H. contradiction.
+  - apply doc_eqb_eq; auto.
+Qed.
+
+Lemma step_nopub p d : publishes p = false -> main (step p d) = main d.
+Proof. destruct p; cbn; try discriminate; reflexivity. Qed.
+
+Lemma run_nopub : forall steps d, no_publish steps = true -> main (run steps d) = main d.
+Proof.
+  induction steps as [|p r IH]; intros d H; [reflexivity|].
+  cbn in H. apply andb_true_iff in H. destruct H as [H1 H2]. apply negb_true_iff in H1.
+  change (run (p :: r) d) with (run r (step p d)). rewrite IH by auto. apply step_nopub; auto.
+Qed.
+
+Lemma ordered_nil av : ordered av [].
+Proof. intros l1 i x l2 E. destruct l1; discriminate. Qed.
+
+Lemma lookup_keys_in {A} i (l : list (id * A)) : lookup i l <> None -> In i (keys l).
+Proof.
+  intros H. destruct (in_dec N.eq_dec i (keys l)); auto. apply lookup_None_keys in n. contradiction.
+Qed.
+
+(* the three clauses for one crash position *)
+Definition crash_ok (d : disk) (steps : list prim) (k : nat) : Prop :=
+  let d' := run (firstn k steps) d in
+  (exists s', main d' = Some s' /\ closed s') /\
+  (forall i, lookup i (view d') = lookup i (view d) \/ lookup i (view d') = lookup i (view (run steps d))) /\
+  (no_publish (firstn k steps) = true -> main d' = main d).
+
+Lemma crash_ok_nil d s k : main d = Some s -> closed s -> crash_ok d [] k.
+Proof.
+  intros Hm Hc. unfold crash_ok. rewrite firstn_nil. cbn. split; [eauto|]. split; auto.
+Qed.
+
+Lemma view_main d s : main d = Some s -> view d = s.
+Proof. unfold view. intros ->. reflexivity. Qed.
+
+Lemma crash_ok_tx v b d s c n tx k :
+  safe v b = true -> main d = Some s -> closed s ->
+  (forall i, has i c = true -> lookup i s <> None) -> consistentb n = true ->
+  collect (keys s) c n [] = Ok tx -> crash_ok d (tx_steps v b d tx) k.
+Proof.
+  intros Hs Hm Hc Hcache Hcons Hcol.
+  destruct (collect_inv (keys s) c (nodes n)) with (n := n) (tx := @nil (id * (N * doc))) (tx' := tx)
+    as ((ND & OR & _) & _ & _); auto.
+  { intros i Hi. apply lookup_keys_in. auto. }
+  { apply consistentb_spec; auto. }
+  { apply incl_refl. }
+  { split; [constructor|]. split; [apply ordered_nil|]. intros ? ? ? []. }
+  set (steps := tx_steps v b d tx).
+  destruct (tx_crash v b Hs tx d s k Hm) as (j & s' & Hm' & He & _).
+  destruct (tx_crash v b Hs tx d s (length steps) Hm) as (_ & sf & Hmf & _ & Hf).
+  fold steps in Hm', Hmf, Hf. rewrite firstn_all in Hmf. specialize (Hf (le_n _)).
+  unfold crash_ok. split; [|split].
+  - exists s'. split; auto. eapply closed_equiv; [apply equiv_sym; exact He|].
+    apply prefix_closed with (avail := keys s); auto.
+    intros a Ha Hn. apply lookup_None_keys in Hn. contradiction.
+  - intros i. rewrite (view_main _ _ Hm'), (view_main _ _ Hm), (view_main _ _ Hmf).
+    rewrite (He i), (Hf i). apply prefix_old_or_new. rewrite keys_proj. exact ND.
+  - apply run_nopub.
+Qed.
+
+Lemma crash_ok_del v b d s i k :
+  safe v b = true -> main d = Some s -> closed s ->
+  (forall j p refs, lookup j s = Some (Full p refs) -> ~ In i refs) ->
+  crash_ok d (del_steps v b d i) k.
+Proof.
+  intros Hs Hm Hc Hn. set (steps := del_steps v b d i).
+  destruct (del_atomic v b d s i k Hs Hm) as (s' & Hm' & Hor & _).
+  destruct (del_atomic v b d s i (length steps) Hs Hm) as (sf & Hmf & _ & Hf).
+  fold steps in Hm', Hmf, Hf. rewrite firstn_all in Hmf. specialize (Hf (le_n _)).
+  unfold crash_ok. split; [|split].
+  - exists s'. split; auto. destruct Hor as [E|E]; (eapply closed_equiv; [apply equiv_sym; exact E|]); auto.
+    apply closed_adel; auto.
+  - intros j. rewrite (view_main _ _ Hm'), (view_main _ _ Hm), (view_main _ _ Hmf).
+    destruct Hor as [E|E]; rewrite (E j); [left; reflexivity|right; symmetry; apply Hf].
+  - apply run_nopub.
+Qed.
+
+Theorem crash_safe : forall v b d c o k,
+  safe v b = true -> wf d c -> op_in_scope d o ->
+  crash_ok d (steps_of (plan_of v b d c o)) k.
+Proof.
+  intros v b d c o k Hs (s & Hm & Hc & Hcache) Hscope.
+  unfold plan_of. rewrite (view_main _ _ Hm).
+  destruct o as [n|n|i|]; cbn [op_in_scope] in Hscope.
+  - destruct n as [i tg p kids|]; [|eapply crash_ok_nil; eauto].
+    destruct (lookup i c) as [t|].
+    { destruct (t =? tg); eapply crash_ok_nil; eauto. }
+    destruct (memb i (keys s)); [eapply crash_ok_nil; eauto|].
+    destruct (collect (keys s) c (Node i tg p kids) []) as [tx|e] eqn:Ec; [|eapply crash_ok_nil; eauto].
+    cbn [steps_of]. eapply crash_ok_tx; eauto.
+  - destruct (collect (keys s) c n []) as [tx|e] eqn:Ec; [|eapply crash_ok_nil; eauto].
+    cbn [steps_of]. eapply crash_ok_tx; eauto.
+  - destruct (memb i (keys s)); [|eapply crash_ok_nil; eauto].
+    cbn [steps_of]. eapply crash_ok_del; eauto.
+    rewrite (view_main _ _ Hm) in Hscope. exact Hscope.
+  - eapply crash_ok_nil; eauto.
+Qed.
+
+Lemma children_before_parents : forall (s : store) (c : cache) n tx,
+  (forall i, has i c = true -> In i (keys s)) -> consistentb n = true ->
+  collect (keys s) c n [] = Ok tx ->
+  NoDup (keys tx) /\ ordered (keys s) (proj tx).
+Proof.
+  intros s c n tx Hc Hn Hcol.
+  destruct (collect_inv (keys s) c (nodes n) Hc (consistentb_spec n Hn) n [] tx) as ((ND & OR & _) & _).
+  - apply incl_refl.
+  - split; [constructor|]. split; [apply ordered_nil|]. intros ? ? ? [].
+  - exact Hcol.
+  - auto.
+Qed.
+
+(* a failure that is not a backend failure happens before the backend is touched *)
+Lemma error_before_write v b d c o e : plan_of v b d c o = PErr e -> steps_of (plan_of v b d c o) = [].
+Proof. intros ->. reflexivity. Qed.
+
+(* the invariant is re-established by every completed or crashed operation: histories of any length *)
+Lemma wf_preserved v b d c o k :
+  safe v b = true -> wf d c -> op_in_scope d o ->
+  exists s', main (run (firstn k (steps_of (plan_of v b d c o))) d) = Some s' /\ closed s'.
+Proof. intros Hs Hw Ho. destruct (crash_safe v b d c o k Hs Hw Ho) as [H _]. exact H. Qed.
+
+(* ------------------------------------------------------------------------------------------------------------ *)
+(* executable closedness implies the Prop                                                                         *)
+
+Lemma closedb_closed s : closedb s = true -> closed s.
+Proof.
+  unfold closedb. rewrite forallb_forall. intros H i x Hi.
+  specialize (H (i, x) (lookup_In _ _ _ Hi)). cbn in H. destruct x as [p refs|]; [|discriminate].
+  exists p, refs. split; auto. intros r Hr. rewrite forallb_forall in H. apply has_lookup. auto.
+Qed.
+
+Lemma wf_of_closedb d c s :
+  main d = Some s -> closedb s = true -> forallb (fun e => has (fst e) s) c = true -> wf d c.
+Proof.
+  intros Hm Hc Hk. exists s. split; auto. split; [apply closedb_closed; auto|].
+  intros i Hi. apply has_lookup. rewrite forallb_forall in Hk.
+  unfold has in Hi. apply memb_In in Hi. unfold keys in Hi. apply in_map_iff in Hi.
+  destruct Hi as ([j t] & <- & Hin). apply (Hk _ Hin).
+Qed.
+
+(* ------------------------------------------------------------------------------------------------------------ *)
+(* witnesses                                                                                                      *)
+
+Definition disk_of (s : store) : disk := {| main := Some s; tmpf := None; tmpz := None |}.
+
+(* the pinned snapshot: FilesystemBackend.put opened the document with 'w' before writing *)
+Lemma snapshot_fs_unsafe :
+  exists d c o k, wf d c /\ op_in_scope d o /\ ~ crash_ok d (steps_of (plan_of snapshot BFs d c o)) k.
+Proof.
+  exists (disk_of []), [], (OStore (Node 0 1 1 [])), 1%nat. split; [|split].
+  - eapply wf_of_closedb; reflexivity.
+  - reflexivity.
+  - intros [(s' & Hm & Hc) _]. vm_compute in Hm. injection Hm as <-.
+    destruct (Hc 0 Partial eq_refl) as (p & refs & E & _). discriminate.
+Qed.
+
+(* the pinned snapshot: ZipFileBackend._update removed the archive before renaming the copy *)
+Lemma snapshot_zip_unsafe :
+  exists d c o k, wf d c /\ op_in_scope d o /\ ~ crash_ok d (steps_of (plan_of snapshot BZip d c o)) k.
+Proof.
+  exists (disk_of [(0, Full 1 [])]), [], (OOverwrite (Node 0 2 2 [])), 3%nat. split; [|split].
+  - eapply wf_of_closedb; reflexivity.
+  - reflexivity.
+  - intros [(s' & Hm & _) _]. vm_compute in Hm. discriminate.
+Qed.
+
+(* one identifier, two objects, in one transaction: the parent is written before its child *)
+Definition dup_witness : tmpl := Node 4 4 4 [Node 5 1 1 []; Node 5 2 2 [Node 6 3 3 []]].
+
+Lemma dup_id_unsafe :
+  exists b d c o k, safe current b = true /\ wf d c /\
+                    ~ crash_ok d (steps_of (plan_of current b d c o)) k.
+Proof.
+  exists BDict, (disk_of []), [], (OOverwrite dup_witness), 1%nat. split; [reflexivity|]. split.
+  - eapply wf_of_closedb; reflexivity.
+  - intros [(s' & Hm & Hc) _]. vm_compute in Hm. injection Hm as <-.
+    destruct (Hc 5 (Full 2 [6]) eq_refl) as (p & refs & E & Hr). injection E as <- <-.
+    apply (Hr 6); cbn; auto.
+Qed.
+
+
+(* the refutations, stated on clause (a) alone *)
+Lemma snapshot_fs_unsafe_a :
+  exists d c o k, wf d c /\ op_in_scope d o /\
+    ~ (exists s', main (run (firstn k (steps_of (plan_of snapshot BFs d c o))) d) = Some s' /\ closed s').
+Proof.
+  exists (disk_of []), [], (OStore (Node 0 1 1 [])), 1%nat. split; [|split].
+  - eapply wf_of_closedb; reflexivity.
+  - reflexivity.
+  - intros (s' & Hm & Hc). vm_compute in Hm. injection Hm as <-.
+    destruct (Hc 0 Partial eq_refl) as (p & refs & E & _). discriminate.
+Qed.
+
+Lemma snapshot_zip_unsafe_a :
+  exists d c o k, wf d c /\ op_in_scope d o /\
+    ~ (exists s', main (run (firstn k (steps_of (plan_of snapshot BZip d c o))) d) = Some s' /\ closed s').
+Proof.
+  exists (disk_of [(0, Full 1 [])]), [], (OOverwrite (Node 0 2 2 [])), 3%nat. split; [|split].
+  - eapply wf_of_closedb; reflexivity.
+  - reflexivity.
+  - intros (s' & Hm & _). vm_compute in Hm. discriminate.
+Qed.
+
+Lemma dup_id_unsafe_a :
+  exists b d c o k, safe current b = true /\ wf d c /\
+    ~ (exists s', main (run (firstn k (steps_of (plan_of current b d c o))) d) = Some s' /\ closed s').
+Proof.
+  exists BDict, (disk_of []), [], (OOverwrite dup_witness), 1%nat. split; [reflexivity|]. split.
+  - eapply wf_of_closedb; reflexivity.
+  - intros (s' & Hm & Hc). vm_compute in Hm. injection Hm as <-.
+    destruct (Hc 5 (Full 2 [6]) eq_refl) as (p & refs & E & Hr). injection E as <- <-.
+    apply (Hr 6); cbn; auto.
+Qed.
+
+(* a stale cached object lets overwrite() build a reference cycle: nothing loads afterwards *)
+Definition cycle_store : store := [(2, Full 2 [1]); (1, Full 4 [3]); (3, Full 3 [])].
+Definition cycle_cache : cache := [(2, 2); (1, 4); (3, 3)].
+Definition cycle_op : op := OOverwrite (Node 3 5 5 [Node 2 2 2 [Node 1 1 1 []]]).
+
+Lemma cycle_no_load : forall fuel,
+  let s := view (run (steps_of (plan_of current BDict (disk_of cycle_store) cycle_cache cycle_op)) (disk_of cycle_store)) in
+  loadsb fuel s 1 = false /\ loadsb fuel s 2 = false /\ loadsb fuel s 3 = false.
+Proof.
+  cbv zeta. set (s := view _). vm_compute in s. subst s.
+  induction fuel as [|f (H1 & H2 & H3)]; [auto|].
+  cbn [loadsb lookup N.eqb Pos.eqb forallb]. rewrite H1, H2, H3. auto.
+Qed.
+
+Lemma cycle_unsafe :
+  exists d c o, wf d c /\ all_load (view d) /\ op_in_scope d o /\
+     exists i, lookup i (view (run (steps_of (plan_of current BDict d c o)) d)) <> None /\
+               ~ loads (view (run (steps_of (plan_of current BDict d c o)) d)) i.
+Proof.
+  exists (disk_of cycle_store), cycle_cache, cycle_op. split; [|split; [|split]].
+  - eapply wf_of_closedb; reflexivity.
+  - intros i Hi. exists 4%nat. change (lookup i cycle_store <> None) in Hi. unfold cycle_store in Hi.
+    cbn [lookup] in Hi.
+    destruct (2 =? i) eqn:E2; [apply N.eqb_eq in E2; subst; reflexivity|].
+    destruct (1 =? i) eqn:E1; [apply N.eqb_eq in E1; subst; reflexivity|].
+    destruct (3 =? i) eqn:E3; [apply N.eqb_eq in E3; subst; reflexivity|]. congruence.
+  - reflexivity.
+  - exists 3. split; [vm_compute; discriminate|]. intros [fuel H].
+    destruct (cycle_no_load fuel) as (_ & _ & H3). cbv zeta in H3. congruence.
+Qed.
+
+(* non-vacuity: a storage with content, cached objects, and a template with new, shared and cached children *)
+Definition ex_store : store := [(0, Full 3 [1; 2]); (1, Full 1 []); (2, Full 2 [])].
+Definition ex_cache : cache := [(0, 3); (1, 1)].
+Definition ex_tmpl : tmpl := Node 0 9 9 [Node 5 6 6 [Node 7 7 7 []]; Node 1 1 1 []; Node 5 6 6 [Node 7 7 7 []]].
+
+Lemma hypotheses_satisfiable :
+  forall b, safe current b = true /\ wf (disk_of ex_store) ex_cache /\ op_in_scope (disk_of ex_store) (OOverwrite ex_tmpl)
+            /\ (3 <= length (steps_of (plan_of current b (disk_of ex_store) ex_cache (OOverwrite ex_tmpl))))%nat
+            /\ guard_C11_cycle (disk_of ex_store) ex_cache (OOverwrite ex_tmpl) = true.
+Proof.
+  intros b. split; [destruct b; reflexivity|]. split; [eapply wf_of_closedb; reflexivity|].
+  split; [reflexivity|]. split; [destruct b; vm_compute; lia|reflexivity].
+Qed.
